@@ -601,10 +601,10 @@ class PrecipitateModel (PrecipitateBase):
         if growth_result is None:
             #If driving force is negative, then precipitates are unstable
             if dGs[p] < 0:
-                #Completely reset the PBM, including bounds and number of bins
-                #In case nucleation occurs again, the PBM will be at a good length scale
-                self.PSDXalpha[p] = np.zeros((self.PBM[p].bins + 1, self.numberOfElements))
-                self.PSDXbeta[p] = np.zeros((self.PBM[p].bins + 1, self.numberOfElements))
+                #The PBM and the interfacial compositions are reset in _updateParticleSizeDistribution if this is still the case
+                #for the accepted step (zero equilibrium compositions flag it)
+                #They are not cleared here since this can be an intermediate stage of the iterator with a depleted trial state,
+                #and the mass balance of the accepted step still needs the precipitate compositions of the existing particles
                 xEqAlpha = np.zeros(self.numberOfElements)
                 xEqBeta = np.zeros(self.numberOfElements)
                 growthRate = np.zeros(self.PBM[p].bins + 1)
